@@ -376,9 +376,11 @@ Proof.
   - rewrite cos_minus, C2, S2, cos_minus, sin_minus, (cos_acos f Hf).
     pose proof (sin2_cos2 mu) as H. unfold Rsqr in H. nra.
   - rewrite sin_minus, C1, S1, cos_plus, sin_plus, (cos_acos f Hf), (sin_acos f Hf).
-    pose proof (sin2_cos2 mu) as H. unfold Rsqr in H. nra.
+    pose proof (sin2_cos2 mu) as H. unfold Rsqr in H.
+    transitivity (sqrt (1 - f²) * (sin mu * sin mu + cos mu * cos mu)); [ring | rewrite H; ring].
   - rewrite sin_minus, C2, S2, cos_minus, sin_minus, (cos_acos f Hf), (sin_acos f Hf).
-    pose proof (sin2_cos2 mu) as H. unfold Rsqr in H. nra.
+    pose proof (sin2_cos2 mu) as H. unfold Rsqr in H.
+    transitivity (- sqrt (1 - f²) * (sin mu * sin mu + cos mu * cos mu)); [ring | rewrite H; ring].
 Qed.
 
 Lemma vm_angle_concentrated mu kappa u0 u1 u3 : vm_is_uniform kappa = false ->
@@ -393,4 +395,17 @@ Proof.
   split; [exact Hf|].
   destruct (vm_result_symmetric mu _ Hf) as (_ & _ & _ & _ & Cu & Cl & _).
   unfold vm_angle. rewrite Hu. destruct (vm_upper_branch u3); split; auto.
+Qed.
+
+Lemma direction_degrees_mu d deg : compass_degrees d = Some deg ->
+  direction_value d = deg /\ radial_vm_mu d = IZR deg * PI / 180.
+Proof.
+  intros H. pose proof (direction_value_compass d deg H) as E. split; [exact E|].
+  rewrite mu_is_degrees, E. reflexivity.
+Qed.
+
+Lemma east_example : radial_offset 10 30 4 4 90 (radial_vm_mu DirE) = (4, 13)%Z.
+Proof.
+  destruct (offset_cardinal 10 30 4 4 90) as (_ & HE & _). rewrite HE.
+  replace (90 / 10) with (IZR 9) by (simpl; lra). rewrite Rlround_IZR. reflexivity.
 Qed.
